@@ -243,8 +243,12 @@ def mutations(s: bytes, rnd: random.Random, budget: int) -> list[bytes]:
         out.append(s[:i] + s[i:i + 1] + s[i:])
     uniq = list(dict.fromkeys(out))
     if len(uniq) > budget:
-        head = uniq[:1]
-        uniq = head + rnd.sample(uniq[1:], budget - 1)
+        # never sampled away: the object itself and every position bumped by one (a count, a flag, a length, a version that moves by one is the
+        # realistic slip), at all positions of a short encoding and at the sampled positions of a long one
+        head = list(dict.fromkeys([s] + [s[:i] + bytes([(s[i] + 1) & 0xFF]) + s[i + 1:] for i in (range(n) if n <= 400 else pos)]))
+        hs = set(head)
+        rest = [u for u in uniq if u not in hs]
+        uniq = head + rnd.sample(rest, min(len(rest), max(0, budget - 1)))
     return uniq
 
 
